@@ -115,3 +115,24 @@ Theorem face_centre_radius r1 r2 a b :
 Proof.
   rewrite <- (chord_midpoint_radius ((r1 + r2) / 2) a b). field.
 Qed.
+
+(* Tube.element_volumes: the cross-section of an element of the polygonal mesh between the radii
+   ri < ro over the angle th is the trapezoid with parallel sides a = 2 ri sin(th/2), b = 2 ro sin(th/2)
+   and legs ro - ri; the formula of the code, (a + b)/2 * sqrt(leg^2 - ((b - a)/2)^2), is the difference
+   of the two polygon sectors, (ro^2 - ri^2)/2 * sin th *)
+Theorem element_area_formula ri ro th : 0 <= ri <= ro -> 0 <= th <= PI ->
+  let a := 2 * ri * sin (th / 2) in let b := 2 * ro * sin (th / 2) in
+  (a + b) / 2 * sqrt ((ro - ri) * (ro - ri) - ((b - a) / 2) * ((b - a) / 2)) = (ro * ro - ri * ri) / 2 * sin th.
+Proof.
+  intros Hr Ht a b.
+  assert (C : 0 <= cos (th / 2)) by (apply cos_ge_0; lra).
+  assert (S2 := sin2_cos2 (th / 2)). unfold Rsqr in S2.
+  assert (E : (ro - ri) * (ro - ri) - ((b - a) / 2) * ((b - a) / 2) = ((ro - ri) * cos (th / 2)) * ((ro - ri) * cos (th / 2))).
+  { unfold a, b. set (s := sin (th / 2)) in *. set (c := cos (th / 2)) in *.
+    replace ((2 * ro * s - 2 * ri * s) / 2) with ((ro - ri) * s) by field.
+    replace ((ro - ri) * c * ((ro - ri) * c)) with ((ro - ri) * (ro - ri) * (c * c)) by ring.
+    replace (c * c) with (1 - s * s) by lra. ring. }
+  rewrite E, sqrt_square by (apply Rmult_le_pos; lra).
+  assert (D : sin th = 2 * sin (th / 2) * cos (th / 2)) by (replace th with (2 * (th / 2)) at 1 by field; apply sin_2a).
+  rewrite D. unfold a, b. field.
+Qed.
